@@ -271,7 +271,7 @@ def validate(c, tr, d, label, dev=None):
 # validators, longer histories; validated by the same monitor with these constants.
 RICH = cfg(N=5, PR=1000000, MinStake=1000000, MaxVals=3, UnstakeTime=2, Window=4, MinSignedNum=1, MinSignedDen=2, JailDur=1, MaxEvAge=2,
            FracDen=100, FracDS=5, FracDT=1, Fee=100, GenBal=(50000000, 40000000, 30000000, 3000000, 999999),
-           GenVals=gv((1, 3000000), (2, 1000001)), DaoTokens=7000000, Amts={1}, BurnNums={0, 50, 100, 150}, MaxHeight=14, MaxTx=5)
+           GenVals=gv((1, 3000000), (2, 1000001)), DaoTokens=7000000, Amts={1}, BurnNums={0, 50, 100, 150}, MaxHeight=14, MaxTx=5, MaxExports=1)
 RICH2 = cfg(N=4, PR=1000000, MinStake=2500000, MaxVals=2, UnstakeTime=0, Window=3, MinSignedNum=7, MinSignedDen=10, JailDur=0, MaxEvAge=1,
             FracDen=1000, FracDS=1000, FracDT=333, Fee=0, GenBal=(90000000, 9000000, 5000000, 2500000),
             GenVals=gv((1, 7500000), (2, 2500000), (3, 2500000)), DaoTokens=0, Amts={1}, BurnNums={1, 999, 1000}, MaxHeight=12, MaxTx=4)
@@ -279,7 +279,7 @@ RICH2 = cfg(N=4, PR=1000000, MinStake=2500000, MaxVals=2, UnstakeTime=0, Window=
 
 def run_random(c, d, seed, nbeh, label):
     rc = app_cfg(c, seed)
-    rc.update(maxHeight=c["MaxHeight"], maxTx=c["MaxTx"], burnNums=sorted(c["BurnNums"]))
+    rc.update(maxHeight=c["MaxHeight"], maxTx=c["MaxTx"], burnNums=sorted(c["BurnNums"]), exports=c.get("MaxExports", 0))
     cp = os.path.join(d, "rcfg_%s.json" % label)
     with open(cp, "w") as fh:
         json.dump(rc, fh)
